@@ -98,7 +98,7 @@ def gen_cases(tier, seed):
         cls, mode = rng.choice([('digits', None), ('digits', 'numeric'), ('alnum', None), ('alnum', 'alphanumeric'),
                                 ('ascii', 'byte'), ('ascii', None), ('kana', None), ('kana', 'kanji'), ('hanzi', 'hanzi'),
                                 ('hanzi', 'hanzi'), ('hanzi', None), ('cp932_only', None), ('cp932_only', None),
-                                ('utf8', None), ('upper', None)])
+                                ('utf8', None), ('upper', None), ('unicode_digits', None), ('unicode_digits', None)])
         k = rng.randint(2, 8)
         content = gen.content_of(rng, cls, rng.randint(k, 90))
         if len(content) < k:
